@@ -155,14 +155,14 @@ def judge(case):
         # a result that is a fresh object (not an operand, not part of one) is moved by the caller;
         # asking the same question again must give the same answer in every form
         r0, e0, _ = M.call(G.intersection, x, y)
-        if e0 is None and r0 is not None and r0 is not x and r0 is not y and hasattr(r0, "move"):
-            before = (M.snap(x), M.snap(y))
+        if e0 is None and r0 is not None and hasattr(r0, "move") and not M.shares_state(r0, (x, y)):
+            # (results that share an object with an operand - the operand itself, a face of it - are left alone)
             want = lower(r0)
             try:
                 r0.move(G.Vector(0.75, -1.25, 2.5))
             except Exception:
                 pass
-            if (M.snap(x), M.snap(y)) == before:          # (results that share state with an operand are left alone)
+            if True:
                 mu.cell("history:result-moved-then-asked-again")
                 for tag, fn, p_, q_ in forms:
                     r1, e1, _ = M.call(fn, p_, q_)
